@@ -120,7 +120,10 @@ def run_script(script: dict[str, Any]) -> dict[str, Any]:
             req = getattr(pb, REQUESTS[0 if same_req else i])()
             if same_req:
                 order.append(i)
-            recs[i] = sim.call(f"call{i}", lambda: conn.send_messages_await_response_complex((req,), do_append, do_stop, types, spec["timeout"]), eager=eager)
+            # (None is a legal predicate: "accept every message" / "stop at the first message")
+            ap = None if spec.get("append_none") else do_append
+            st = None if spec.get("stop_none") else do_stop
+            recs[i] = sim.call(f"call{i}", lambda: conn.send_messages_await_response_complex((req,), ap, st, types, spec["timeout"]), eager=eager)
             if eager:
                 t_call[i] = sim.clock
 
@@ -132,6 +135,25 @@ def run_script(script: dict[str, Any]) -> dict[str, Any]:
             k = len(subs)
             if v0.closed_seq is None:
                 subs.append(conn.add_message_callback(lambda m, k=k: sub_log.append((sim.next_seq(), k, m.key)), (getattr(pb, TYPES[ty]),)))
+
+        stillborn: list[Any] = []
+
+        def stillborn_call(i: int) -> None:
+            # the caller builds the call (evaluates the call expression), wraps it in a task and cancels that task before it ever ran
+            # (`asyncio.wait_for(call, 0)`, a TaskGroup that is already failing): a call that never started must not have done anything
+            if v0.closed_seq is not None:
+                return
+            spec = calls[i]
+            types = tuple(getattr(pb, TYPES[t]) for t in spec["types"])
+            n_w = len(dconn.received)
+            try:
+                coro = conn.send_messages_await_response_complex((getattr(pb, REQUESTS[i])(),), None, None, types, spec["timeout"])
+            except Exception as e:  # noqa: BLE001
+                stillborn.append(("raised", repr(e)))
+                return
+            task = sim.loop.create_task(coro, name="harness:stillborn")
+            task.cancel()
+            stillborn.append(("cancelled-before-start", task))
 
         def subscribe_then_call(ty: int, j: int) -> None:
             # a subscriber that reacts to the first message of that type by starting call j AT ONCE (eager task: the request is written and the
@@ -194,6 +216,8 @@ def run_script(script: dict[str, Any]) -> dict[str, Any]:
                 sim.at(t, functools.partial(subscribe, ev[2]))
             elif kind == "subcall":
                 sim.at(t, functools.partial(subscribe_then_call, ev[2], ev[3]))
+            elif kind == "stillborn":
+                sim.at(t, functools.partial(stillborn_call, ev[2]))
             elif kind == "unsub":
                 # its remove function is called -- possibly for the second or third time (clean-up paths commonly do): a repeated removal
                 # has no effect on anything else registered for that type
@@ -266,6 +290,7 @@ def run_script(script: dict[str, Any]) -> dict[str, Any]:
             "final_timers": [x for x in sim.live_timers() if x == "handle_timeout"], "trace": sim.trace(120),
             "t_call": t_call,
             "requests_at_device": [r["name"] for r in dconn.received if r["name"] in REQUESTS],
+            "stillborn": len(stillborn),
             "closed_inside_dispatch_of": next((x[0] for a, b in sim.packet_spans if v.closed_seq is not None and a < v.closed_seq < b
                                                for x in arrivals if a <= x[0] < v.closed_seq), None),
         }
@@ -292,9 +317,9 @@ def model_call(spec: dict[str, Any], i: int, rec: Any, o: dict[str, Any], skip: 
             break
         if abs(t - deadline) <= 1e-9:
             ambiguous = True
-        if key >> 8 >> i & 1:
+        if spec.get("append_none") or key >> 8 >> i & 1:
             result.append(key)
-        if key >> 16 >> i & 1:
+        if spec.get("stop_none") or key >> 16 >> i & 1:
             return {"kind": "result", "keys": result, "t": t, "ambiguous": ambiguous, "alt_timeout": ambiguous}
     if o["closed_t"] is not None and o["closed_t"] <= deadline + 1e-9 and (o["closed_seq"] or 0) > rec.seq_call:
         return {"kind": "closed", "t": o["closed_t"], "ambiguous": abs(o["closed_t"] - deadline) <= 1e-9}
@@ -411,6 +436,10 @@ def gen_script(rng: Any, framing: str) -> dict[str, Any]:
             for _ in range(rng.randint(1, 3)):
                 inst.append((rng.choice(types) if rng.random() < 0.8 else rng.randrange(3), rng.randrange(8), rng.randrange(8) if rng.random() < 0.5 else 0))
         calls.append({"types": types, "timeout": rng.choice(TIMEOUTS) if rng.random() < 0.93 else rng.choice(EDGE_TIMEOUTS), "instant": inst})
+        if rng.random() < 0.12:
+            calls[-1]["append_none"] = True
+        if rng.random() < 0.12:
+            calls[-1]["stop_none"] = True
     events: list[Any] = [["0", "call", 0]]
     started = {0}
     n = rng.randint(2, 7)
@@ -440,6 +469,8 @@ def gen_script(rng: Any, framing: str) -> dict[str, Any]:
                 events.append([gap, "unsub", rng.randrange(nsub)])
             else:
                 events.append([gap, "sub", rng.randrange(3)])
+        elif r < 0.885:
+            events.append([gap, "stillborn", rng.randrange(ncalls)])
         elif r < 0.9:
             events.append([gap, "debug", rng.random() < 0.7])
         else:
